@@ -43,7 +43,7 @@ def plan(tier):
 def gen_case(seed, tier):
     rng = rng_for(seed, "case")
     kind = gen.pick(rng, ["level", "level", "normal", "steep_up", "vertical", "downward", "slow", "zero_velocity",
-                          "beyond_reach"])
+                          "beyond_reach", "tail_wind"] + (["high_vacuum"] if rng.random() < 0.25 else []))
     w = empty_world()
     w["tables"].append(gen.gen_table(rng, custom_p=0.1))
     dm = gen.gen_dm(rng, 0, mbc_p=0.1)
@@ -68,6 +68,14 @@ def gen_case(seed, tier):
     elif kind == "zero_velocity":
         mv = 0.0
         rng_yd = rng.uniform(10, 100)
+    elif kind == "tail_wind":
+        mv = rng.uniform(80, 400)                 # slow projectile, strong wind from behind (set below)
+        rng_yd = rng.uniform(30, 250)
+    elif kind == "high_vacuum":
+        mv = rng.uniform(3400, 3600)              # a near-vertical shot in a vacuum climbs far above the troposphere
+        look = rng.uniform(86, 89.5)
+        step = 16.0
+        rng_yd = rng.uniform(100, 1000)
     elif kind == "beyond_reach":
         mv = rng.uniform(600, 1500)
         rng_yd = rng.uniform(3000, 6000)
@@ -78,13 +86,19 @@ def gen_case(seed, tier):
                          "twist": [gen.pick(rng, [0, 8, 10, 12, -9]), "Inch"],
                          "zero": gen.gen_angle_deg(rng, round(rng.uniform(-0.2, 0.6), 4))})
     atmo = gen.gen_atmo(rng, max_alt_ft=9000)
+    if kind == "high_vacuum":
+        atmo = {"kind": "vacuum", "altitude": [round(rng.uniform(0, 3000), 1), "Foot"], "temperature": [15.0, "Celsius"]}
     w["atmos"].append(atmo)
     nw = gen.pick(rng, [0, 0, 1, 2])
+    if kind == "tail_wind":
+        nw = 1
     range_ft = rng_yd * 3
     wl = []
     for i in range(nw):
         until = None if i == nw - 1 and rng.random() < 0.5 else round(range_ft * rng.uniform(0.1, 1.2), 1)
         w["winds"].append(gen.gen_wind(rng, max_fps=45.0, until_ft=until))
+        if kind == "tail_wind":
+            w["winds"][-1] = {"velocity": [round(rng.uniform(30, 70), 1), "FPS"], "direction": [round(rng.uniform(-20, 20), 1), "Degree"]}
         wl.append(i)
     w["windlists"].append(wl)
     w["shots"].append({"weapon": 0, "ammo": 0, "atmo": 0, "winds": 0 if nw else None,
@@ -235,6 +249,19 @@ def check_abort(case, ref, out, limits):
             bad.append(("abort.missed", "reference run with relaxed limits aborted but the tighter run returned normally"))
         elif rows != ref["rows"]:
             bad.append(("rows.differ_without_abort", "no limit was reported crossed yet rows differ from the reference run"))
+        # "returns a trajectory reaching the requested range": the last row is at (or beyond) the last multiple of the
+        # record step that lies within the requested range
+        if rows:
+            range_ft = gen.to_feet(case["req"]["range"])
+            if req_step_ft > 0 and range_ft > 0:
+                want_last = math.floor(range_ft / req_step_ft + 1e-9) * req_step_ft
+                last_x = unhex(rows[-1][DIST]) / 12.0
+                if last_x < want_last * (1 - 1e-9) - 1e-9:
+                    tail = any(gen.wind_speed_fps(wd) * math.cos(math.radians(gen.to_deg(wd["direction"]))) >= 5.0
+                               for wd in case["world"]["winds"])
+                    bad.append(("result.stops_short_of_requested_range" + ("|tail" if tail else ""),
+                                f"returned normally but the last row is at {last_x!r} ft; the request ({range_ft!r} ft in steps of "
+                                f"{req_step_ft!r} ft) reaches {want_last!r} ft"))
         for i, row in enumerate(rows[1:], 1):
             r = respects(row, interpolated(row))
             if r:
@@ -376,6 +403,9 @@ def _sweep(case, only_limits=None):
 def _normalise_sig(v):
     # the mode label of a replayed single configuration is 'sweep'; original labels collapse to the same class
     s = dict(v["sig"])
+    if s.get("invariant", "").endswith("|tail"):
+        s["invariant"] = s["invariant"][:-len("|tail")]
+        s["tail_wind_component"] = True
     if s.get("invariant", "").endswith("|first_step"):
         s["invariant"] = s["invariant"][:-len("|first_step")]
         s["row_inside_first_step_from_violating_muzzle"] = True
